@@ -529,10 +529,17 @@ impl Store {
     }
 
     pub async fn cas_insert(&self, content: impl AsRef<[u8]>) -> cacache::Result<ssri::Integrity> {
+        // cacache's sized write path preallocates the file, which fails for zero bytes
+        if content.as_ref().is_empty() {
+            return self.cas_writer().await?.commit().await;
+        }
         cacache::write_hash(&self.path.join("cacache"), content).await
     }
 
     pub fn cas_insert_sync(&self, content: impl AsRef<[u8]>) -> cacache::Result<ssri::Integrity> {
+        if content.as_ref().is_empty() {
+            return self.cas_writer_sync()?.commit();
+        }
         cacache::write_hash_sync(self.path.join("cacache"), content)
     }
 
